@@ -19,9 +19,7 @@ pub const PIN_FILES: &[(&str, Option<&[&str]>)] = &[
   ("src/allocation.rs", Some(&[
     "zeroed_rc", "zeroed_rc_slice", "zeroed_arc", "zeroed_arc_slice",
     "box_bytes_of", "from_box_bytes", "try_from_box_bytes",
-    "impl sealed::BoxBytesOf for str::box_bytes_of", "impl Deref for BoxBytes::deref", "impl DerefMut for BoxBytes::deref_mut",
-    "impl BoxBytes::from_raw_parts", "impl BoxBytes::into_raw_parts", "impl BoxBytes::layout",
-    "impl From<Box<T>> for BoxBytes::from",
+    "impl sealed::BoxBytesOf for str::box_bytes_of", "impl From<Box<T>> for BoxBytes::from",
   ])),
 ];
 
